@@ -238,7 +238,7 @@ func c05scopeCase(c *Ctx, d *c05ScopeCase) {
 		ops = append(ops, d.Ops[i].toCoq())
 	}
 	id := c.NewID()
-	term := fmt.Sprintf("SCase %s %s %s", CoqNat(id), CoqList(ops), CoqList(obs))
+	term := fmt.Sprintf("SCase %s %s %s", fmt.Sprintf("%d%%N", id), CoqList(ops), CoqList(obs))
 	c.AddCase(id, term, d, strings.Join(ops, ";"), true)
 }
 
